@@ -630,10 +630,10 @@ class C15(common.Prop):
     prop_file = 'theories/Properties/C15.v'
     case_requires = ('From Coq Require Import String.\nFrom Coq Require Import List Ascii ZArith Bool.\n'
                      'From CGV Require Import Base.PyBase Base.PyVal Base.NxGraph Stereo.EzImpl Stereo.EzDefs Stereo.EzCheck.')
-    quick_cases = 700
-    thorough_cases = 9000
+    quick_cases = 520
+    thorough_cases = 6000
     extended_cases = 2500
-    shard = 60
+    shard = 40
     fail_text = {1: 'the returned heavy-atom graph is not the written molecule (atoms cannot be recognised)',
                  2: "a tuple stored in 'ez_isomer' is not a path ligand-anchor=anchor-ligand of the returned molecule",
                  3: "a 'chiral' label is missing, extra or sits on another atom than the one it was written on",
